@@ -101,6 +101,8 @@ public:
     Eigen::Map<const Eigen::Quaternion<Scalar>> q1(g_in1.data());
     Eigen::Map<const Eigen::Quaternion<Scalar>> q2(g_in2.data());
     g_out = (q1 * q2).coeffs();
+    // re-normalize: otherwise rounding errors in the norm accumulate over chains of compositions
+    g_out /= g_out.norm();
     if (g_out[3] < Scalar(0)) { g_out *= Scalar(-1); }
   }
 
